@@ -357,6 +357,8 @@ VARIANTS = [
     brk('B-version-applied-without-rebuild', ['C17'], 'R-version-pairing', (S, "            callback = self.__conf.onCodeVersionChanged\n            self.__onSetCodeVersion(ver)\n", "            callback = self.__conf.onCodeVersionChanged\n")),
     brk('B-append-publishes-old-offset', ['C08'], 'R-write-then-publish', (J, "        self.__currentOffset += len(cmdData)\n        self.__setLastRecordOffset(self.__currentOffset)", "        self.__setLastRecordOffset(self.__currentOffset)\n        self.__currentOffset += len(cmdData)")),
     brk('B-append-advances-by-payload-only', ['C08'], 'R-write-then-publish', (J, "        self.__currentOffset += len(cmdData)\n", "        self.__currentOffset += len(cmdData) - 4\n")),
+    keep('P-rename-transport-privates', (TR, '_shouldConnect', '_mustDial'), (TR, '_onIncomingMessageReceived', '_onHandshake'), (TR, '_connectIfNecessarySingle', '_dialOne'),
+         (TR, '_onDisconnected', '_onConnLost')),
     keep('P-checkserializing-hoist-reset', (SER, "                serializeState = SERIALIZER_STATE.SUCCESS if self.__pid == -1 else SERIALIZER_STATE.FAILED\n                self.__pid = 0\n", "                finished = self.__pid\n                self.__pid = 0\n                serializeState = SERIALIZER_STATE.SUCCESS if finished == -1 else SERIALIZER_STATE.FAILED\n")),
     keep('P-clear-store-then-publish', (J, "        self.__setLastRecordOffset(FIRST_RECORD_OFFSET)\n        self.__currentOffset = FIRST_RECORD_OFFSET", "        self.__currentOffset = FIRST_RECORD_OFFSET\n        self.__setLastRecordOffset(self.__currentOffset)")),
     keep('P-add-offset-in-local', (J, "        self.__currentOffset += len(cmdData)\n        self.__setLastRecordOffset(self.__currentOffset)", "        end = self.__currentOffset + len(cmdData)\n        self.__currentOffset = end\n        self.__setLastRecordOffset(end)")),
